@@ -204,6 +204,7 @@ impl SimCtx {
         s
     }
 
+    pub fn load_obj(&mut self, obj: &lc3_ensemble::asm::ObjectFile) -> String { let r = crate::util::catch(|| self.sim.load_obj_file(obj)); let r = match r { Ok(r) => Self::res_str(r), Err(m) => format!("panic {}", m.replace(' ', "_")) }; self.sync_all(); r }
     fn res_str(r: Result<(), SimErr>) -> String { match r { Ok(()) => "ok".into(), Err(e) => format!("err:{}", err_kind(e)) } }
 
     pub fn exec(&mut self, t: &[&str]) -> String {
